@@ -1,29 +1,32 @@
 #!/bin/bash
 # Development helper: run checks against seeded changes in a scratch copy (never /repo itself).
-#   tools/mutrun.sh setup            refresh /tmp/mrepo (clone of /repo HEAD) and /tmp/mverif (copy of /verif)
-#   tools/mutrun.sh sync             refresh /tmp/mverif only
+#   tools/mutrun.sh setup            refresh /tmp/<S>repo (clone of /repo HEAD) and /tmp/<S>verif (copy of /verif)
+#   tools/mutrun.sh sync             refresh /tmp/<S>verif only
 #   tools/mutrun.sh run <diff> <prop>...
+# <S> = $SCR (default m): several scratch areas can be used side by side.
 set -u
+S=${SCR:-m}
+R=/tmp/${S}repo
+V=/tmp/${S}verif
 case "$1" in
  setup)
-  rm -rf /tmp/mrepo; git clone -q /repo /tmp/mrepo; cp /repo/Cargo.lock /tmp/mrepo/ ;&
+  rm -rf $R; git clone -q /repo $R; cp /repo/Cargo.lock $R/ ;&
  sync)
-  mkdir -p /tmp/mverif
-  rsync -a --delete --exclude .build --exclude .git --exclude replays --exclude evidence /verif/ /tmp/mverif/
-  find /tmp/mverif -name Cargo.toml -o -name config.toml | xargs sed -i 's#"/repo"#"/tmp/mrepo"#; s#/verif/.build#/tmp/mverif/.build#'
-  grep -rl '/repo' /tmp/mverif/lib 2>/dev/null | xargs -r sed -i 's#"/repo#"/tmp/mrepo#g'
+  mkdir -p $V
+  rsync -a --delete --exclude .build --exclude .git --exclude replays --exclude evidence /verif/ $V/
+  find $V -name Cargo.toml -o -name config.toml | xargs sed -i "s#\"/repo\"#\"$R\"#; s#/verif/.build#$V/.build#"
   ;;
  run)
   shift; patch=$1; shift
-  cd /tmp/mrepo && git checkout -q -- . && git apply "$patch" || { echo "patch does not apply: $patch"; exit 2; }
-  cd /tmp/mverif
+  cd $R && git checkout -q -- . && git apply "$patch" || { echo "patch does not apply: $patch"; exit 2; }
+  cd $V
   for p in "$@"; do
     t0=$(date +%s)
-    out=$(VERIF_TIER=${TIER:-quick} ./check "$p" 2>/tmp/mutrun.err); rc=$?
+    out=$(VERIF_TIER=${TIER:-quick} ./check "$p" 2>/tmp/${S}utrun.err); rc=$?
     t1=$(date +%s)
     echo "  $p rc=$rc $((t1-t0))s $(echo "$out" | grep -E 'VIOLATION|KNOWN' | head -2)"
-    if [ $rc -ne 0 ]; then grep -E "violated oracle|MACHINERY|history" /tmp/mutrun.err | head -3 | cut -c1-400 | sed 's/^/      /'; fi
+    if [ $rc -ne 0 ]; then grep -E "violated oracle|MACHINERY|history" /tmp/${S}utrun.err | head -3 | cut -c1-400 | sed 's/^/      /'; fi
   done
-  cd /tmp/mrepo && git checkout -q -- .
+  cd $R && git checkout -q -- .
   ;;
 esac
